@@ -136,6 +136,9 @@ def run_cases(cases: List[Dict[str, Any]], root: str, jobs: int = 16) -> List[Di
         work.append((c, root, c["props"]))
     if not work:
         return []
+    from sa.check import preload
+
+    preload()
     with ProcessPoolExecutor(max_workers=min(jobs, len(work))) as ex:
         return list(ex.map(_run_one, work))
 
@@ -230,6 +233,9 @@ def run_seeds_for_property(pid: str, root: str) -> Dict[str, Any]:
     out = {"seeds": len(work), "caught": 0, "missed": [], "not_applicable": [], "documented_misses": documented}
     if not work:
         return out
+    from sa.check import preload
+
+    preload()
     with ProcessPoolExecutor(max_workers=min(8, len(work))) as ex:
         for r in ex.map(_run_seed, work):
             if r["status"] == "n/a":
@@ -250,6 +256,9 @@ def run_kept_twins_for_property(pid: str, root: str) -> Dict[str, Any]:
     out = {"twins": len(work), "silent": 0, "noisy": [], "not_applicable": []}
     if not work:
         return out
+    from sa.check import preload
+
+    preload()
     with ProcessPoolExecutor(max_workers=min(12, len(work))) as ex:
         for r in ex.map(_run_seed, work):
             if r["status"] == "n/a":
